@@ -267,10 +267,25 @@ func (r Ring) MulDoubleRNSScalarThenAdd(p1 Poly, scalar0, scalar1 RNSScalar, p2 
 
 // EvalPolyScalar evaluate p2 = p1(scalar) coefficient-wise in the ring.
 func (r Ring) EvalPolyScalar(p1 []Poly, scalar uint64, p2 Poly) {
-	p2.Copy(p1[len(p1)-1])
+
+	// p2 is written from the first step on: if it is also one of the
+	// coefficients that are read later, the evaluation goes through a copy.
+	acc := p2
+	for i := range p1[:len(p1)-1] {
+		if len(p1[i].Coeffs) > 0 && len(p2.Coeffs) > 0 && &p1[i].Coeffs[0][0] == &p2.Coeffs[0][0] {
+			acc = r.NewPoly()
+			break
+		}
+	}
+
+	acc.Copy(p1[len(p1)-1])
 	for i := len(p1) - 1; i > 0; i-- {
-		r.MulScalar(p2, scalar, p2)
-		r.Add(p2, p1[i-1], p2)
+		r.MulScalar(acc, scalar, acc)
+		r.Add(acc, p1[i-1], acc)
+	}
+
+	if len(acc.Coeffs) > 0 && len(p2.Coeffs) > 0 && &acc.Coeffs[0][0] != &p2.Coeffs[0][0] {
+		p2.Copy(acc)
 	}
 }
 
